@@ -108,6 +108,21 @@ def gen_dirfile(rng, idx, thorough, general=False):
                 base = max(lo, min(base, (1 << 30)))
                 if kind == "s":
                     base = rng.choice([-(1 << 20), -7, 0, 1 << 20])
+            if rng.random() < 0.4:
+                # values across the sign / size boundaries of the native type (the library converts every sample to
+                # FLOAT64 before searching): the core straddles the boundary
+                top = 1 << (bits - 1)
+                cands = ([top, (1 << bits) - 1 - int(total), 1 << (bits // 2)] if kind == "u"
+                         else [0, top - 1 - int(total), -top, -(1 << (bits // 2))])
+                if bits == 64:
+                    cands += [1 << 53, (1 << 53) + 4096]
+                B = rng.choice(cands)
+                if bits == 64 and abs(B) >= (1 << 52):
+                    steps = [st * 4096 for st in steps]      # doubles are 2^11 apart at 2^63: keep the samples distinct and exact
+                    total = sum(steps)
+                    B = min(B, hi - int(total)) if B > 0 else B
+                base = B - int(sum(steps[:len(steps) // 2]))
+                base = max(lo, min(base, hi - int(total)))
         core = [base]
         for s in steps:
             core.append(core[-1] + s)
@@ -375,6 +390,7 @@ def main():
                       {"kind": "harness"}, found=False)
         return chk.finish()
     # ---------------------------------------------------------------- queries + model
+    SA = []     # per query: the array the ORACLE uses (for the RAW field: what was written to the file, not what the library read back)
     Q = []      # (dfi, field, arr, spf, fo, nf, value, fs, fe)
     EX = []     # is the data of that field exact (all steps powers of two)?
     model_in = []
@@ -397,13 +413,25 @@ def main():
             # power-of-two steps make the library's double arithmetic exact; judged on the samples a query can touch
             okstep = [pow2(abs(arr[j + 1] - arr[j])) for j in range(len(arr) - 1)]
             bad_pos = [j + base for j, o in enumerate(okstep) if not o]
+            big = any(abs(x) >= 2.0 ** 40 for x in arr)
             arr = [None] * base + arr
             model_in.append("A %d %d %d %d %d %s" % (spf, fo, nf, base, len(arr) - base, " ".join(p[5 + lead:5 + n])))
+            sarr = arr
+            if fld == "data":
+                # the oracle reads the RAW field from what the check wrote (correctly rounded to double), so a wrong
+                # conversion to FLOAT64 inside the library cannot hide behind gd_getdata agreeing with gd_framenum
+                truth = [float(x) for x in df["data"]]
+                sarr = arr[:fo * spf] + truth
+                if len(sarr) < fo * spf + len(truth) or len(arr) != len(sarr):
+                    sarr = ([None] * (fo * spf))[:fo * spf] if len(arr) < fo * spf else sarr
+                    sarr = (arr[:fo * spf] + [None] * max(0, fo * spf - len(arr)))[:fo * spf] + truth
             for (val, fs, fe) in gen_queries(rng, arr, spf, fo, nf, df, chk.thorough):
+                SA.append(sarr)
                 Q.append((dfi, fld, arr, spf, fo, nf, val, fs, fe))
                 qs = fo * spf if fs == 0 else fs * spf
                 qe = (nf + 1) * spf - 1 if fe == 0 else (fe + 1) * spf - 1
-                EX.append((not df["general"]) and not any(qs <= j < qe for j in bad_pos))
+                # ... and only while every quantity of the formula fits 53 bits (samples of 64-bit fields near 2^63 do not)
+                EX.append((not df["general"]) and not big and not any(qs <= j < qe for j in bad_pos))
                 model_in.append("Q %x %d %d" % (f64bits(val), fs, fe))
     rc2, out2 = vlib.sh([drv], inp=("\n".join(model_in) + "\n").encode(), timeout=3000)
     M = out2.strip().split("\n")
@@ -473,7 +501,7 @@ def main():
         exact = EX[i]
         impl = I[i]
         scale = max(abs(fe), abs(fs), len(arr))
-        spec = spec_answer(arr, spf, fo, nf, val, fs, fe)
+        spec = spec_answer(SA[i], spf, fo, nf, val, fs, fe)
         mc = Mcur[i]
         cls = (impl[0], "spec-" + (spec[0] if spec else "silent"))
         classes[cls] = classes.get(cls, 0) + 1
@@ -509,13 +537,13 @@ def main():
     found_any = False
     for key, l in sorted(spec_bad.items()):
         i = l[0]
-        spec = spec_answer(*Q[i][2:])
+        spec = spec_answer(SA[i], *Q[i][3:])
         found_any |= bool(chk.violation(key, "gd_framenum_subset64(%s, %r, %d, %d) on a %s field (spf %d): library %s, the property demands %s (%d such calls)" % (
             Q[i][1], Q[i][6], Q[i][7], Q[i][8], "strictly monotone" if spec[0] == "ok" else "constant/empty", Q[i][3], I[i],
             ("%s = %.17g" % (spec[1], float(spec[1]))) if spec[0] == "ok" else "GD_E_DOMAIN or GD_E_RANGE", len(l)),
             replay_of(i, {"kind": "impl-vs-spec", "spec": str(spec), "count": len(l)})))
     for i in model_bad[:3]:
-        spec = spec_answer(*Q[i][2:])
+        spec = spec_answer(SA[i], *Q[i][3:])
         if spec is not None and not agree(I[i], spec, EX[i], 1):
             continue    # already reported with an input
         chk.violation("model/framenum", "correspondence broken: gd_framenum_subset64(%s, %r, %d, %d): library %s, model of index.c %s (oracle: %s)" % (
